@@ -6,6 +6,14 @@ import msidec
 
 INTS = [0, 1, -1, 2, 5, 7, 32767, -32767, 32768, -32768, 65535, 2**31 - 1, -2**31 + 1, -2**31]
 STRS = ["", "a", "b", "ab", "A", "é", "日本", "x y", "abc", "Zz", "shared", "q" * 12]
+ASCII_ONLY = False      # set by a generator whose history switches the database to US-ASCII: only representable text is stored
+
+
+def _rep(s):
+    """keep a generated string inside the repertoire of the code page the history will use"""
+    if ASCII_ONLY and isinstance(s, str):
+        return "".join(ch if ord(ch) < 128 else "e" for ch in s)
+    return s
 
 
 def schema_family(rng, kind=None):
@@ -28,14 +36,14 @@ def schema_family(rng, kind=None):
             if r < 0.25:
                 c["cat"] = rng.choice(["Identifier", "Text", "Formatted", "UpperCase", "Version", "Binary", "Guid"])
             elif r < 0.4:
-                c["enum"] = rng.sample(["a", "b", "ab", "é", "Zz"], rng.randint(1, 3))
+                c["enum"] = sorted(set(_rep(x) for x in rng.sample(["a", "b", "ab", "é", "Zz"], rng.randint(1, 3))))
         cols.append(c)
     return cols
 
 
 def gen_value(rng, col, p_invalid=0.1):
     if rng.random() < p_invalid:
-        return rng.choice([None, 0, "a", 32768, -2**31, "zzzzzzzzzzzzzzzzzzzzzzzz", "é" * 300, 40000])
+        return _rep(rng.choice([None, 0, "a", 32768, -2**31, "zzzzzzzzzzzzzzzzzzzzzzzz", "é" * 300, 40000]))
     if col["null"] and rng.random() < 0.25:
         return None
     t = col["type"]
@@ -61,7 +69,7 @@ def gen_value(rng, col, p_invalid=0.1):
         s = rng.choice(STRS)
     if w and len(s) > w:
         s = s[:w]
-    return s
+    return _rep(s)
 
 
 def gen_cond(rng, cols, depth=2):
